@@ -181,3 +181,39 @@ fn cb_ctor_with_hasher() {
     l.put(c, d);
     assert!(logn() == 1 && log(0) == (a, b), "[C15.evict][C15.ctor] a cache built by with_on_evict_cb_and_hasher reports evictions through the callback");
 }
+
+// the order in which purge reports departing entries must be a function of the cache's history (its view),
+// not of the index's iteration order or of allocation addresses (C17), whatever that order is (C15 only says
+// "in the order the entries leave")
+#[kani::proof]
+#[kani::unwind(6)]
+fn cb_purge_order_is_deterministic() {
+    let a = any_abs(N, 0);
+    kani::cover!(a.n >= 2, "purge order: several entries");
+    unsafe { LOGN = 0 };
+    let mut x: CbLru = build(&a, PoisonHasher, Some(RecCb));
+    x.purge();
+    let n1 = logn();
+    let mut first = [(0u8, 0u8); NMAX];
+    let mut i = 0;
+    while i < NMAX {
+        if i < n1 {
+            first[i] = log(i);
+        }
+        i += 1;
+    }
+    unsafe { LOGN = 0 };
+    // same view, nodes allocated in the opposite order, index slots filled in the opposite order
+    let mut y: CbLru = crate::verif_hooks::gen::build_rev(&a, PoisonHasher, Some(RecCb));
+    y.purge();
+    assert!(logn() == n1 && n1 == a.n, "[C15.purge][C17.tworun] both runs report every entry once");
+    let mut i = 0;
+    while i < NMAX {
+        if i < n1 {
+            assert!(log(i) == first[i], "[C17.tworun][C15.order] the order in which purge reports entries does not depend on index iteration order or allocation addresses");
+        }
+        i += 1;
+    }
+    core::mem::forget(x);
+    core::mem::forget(y);
+}
